@@ -2516,4 +2516,89 @@ Proof. intros s HI Hp. apply (run_good n InvC prim_pre step_preserves_InvC tr s 
 Theorem trace_from_fresh_InvC tr : pre_trace n prim_pre tr (init_state n) -> InvC (run n tr (init_state n)).
 Proof. apply run_preserves_InvC, init_state_InvC. Qed.
 
+(* ======================================================================== *)
+(* Part O : the figures are a function of (children, SET of removed indices)  *)
+Section SameRemoved.
+Variable sl1 sl2 : list slinfo.
+Hypothesis Hsame : forall j, In j (removed sl1) <-> In j (removed sl2).
+Lemma memb_same j : memb j (removed sl1) = memb j (removed sl2).
+Proof. apply memb_iff, Hsame. Qed.
+Lemma spec_count_same S j : spec_count n sl1 S j = spec_count n sl2 S j.
+Proof. unfold spec_count. rewrite (cnt_ext sl1 sl2 memb_same S j). reflexivity. Qed.
+Lemma root_legs_same : root_legs n sl1 = root_legs n sl2.
+Proof. unfold root_legs. f_equal. apply filter_ext. intros j. rewrite memb_same. reflexivity. Qed.
+Lemma legs_ok_same nd lg : legs_ok n sl1 nd lg -> legs_ok n sl2 nd lg.
+Proof.
+  unfold legs_ok. rewrite root_legs_same. destruct (Nat.eqb (length nd) N); [auto|].
+  intros [W G]. split; [exact W|]. intros j. rewrite G. apply spec_count_same.
+Qed.
+Lemma inv_ok_same l r inv : inv_ok n sl1 l r inv -> inv_ok n sl2 l r inv.
+Proof. intros [W G]. split; [exact W|]. intros j. rewrite G, !spec_count_same. reflexivity. Qed.
+End SameRemoved.
+
+Theorem figures_determined s1 s2 : InvC s1 -> InvC s2 -> children s1 = children s2 ->
+  (forall j, In j (removed (sliced s1)) <-> In j (removed (sliced s2))) ->
+  forall nd i1 i2, nget nd (info s1) = Some i1 -> nget nd (info s2) = Some i2 ->
+  (forall z1 z2, i_size i1 = Some z1 -> i_size i2 = Some z2 -> z1 = z2) /\
+  (forall z1 z2, i_flops i1 = Some z1 -> i_flops i2 = Some z2 -> z1 = z2) /\
+  (forall l1 l2, i_legs i1 = Some l1 -> i_legs i2 = Some l2 ->
+     size_of (szd n) (lkeys l1) = size_of (szd n) (lkeys l2) /\ forall j, In j (lkeys l1) <-> In j (lkeys l2)).
+Proof.
+  intros [HS1 _] [HS2 _] Ech Hrm nd i1 i2 Hi1 Hi2.
+  assert (HS1' := HS1). destruct HS1' as (Hc1&_&N1&_). assert (HS2' := HS2). destruct HS2' as (_&_&N2&_).
+  destruct (N1 nd i1 Hi1) as [G (A1&B1&C1&D1)]. destruct (N2 nd i2 Hi2) as [_ (A2&B2&C2&D2)].
+  destruct (g_legs_inv s1 nd HS1 G) as (_ & _ & Hw). set (lg0 := snd (g_legs n s1 nd)) in *.
+  pose proof (legs_ok_same _ _ Hrm nd lg0 Hw) as Hw2.
+  split; [|split].
+  - intros z1 z2 E1 E2. rewrite (C1 z1 E1 lg0 Hw), (C2 z2 E2 lg0 Hw2). reflexivity.
+  - intros z1 z2 E1 E2. destruct (D1 z1 E1) as [[L1 ->]|(l & r & Ech1 & F1)].
+    + destruct (D2 z2 E2) as [[_ ->]|(l & r & Ech2 & _)]; [reflexivity|].
+      exfalso. rewrite <- Ech in Ech2. apply (leaf_not_parent _ nd l r Hc1 Ech2 L1).
+    + destruct (D2 z2 E2) as [[L2 _]|(l' & r' & Ech2 & F2)]; [exfalso; apply (leaf_not_parent _ nd l r Hc1 Ech1 L2)|].
+      rewrite <- Ech, Ech1 in Ech2. injection Ech2 as <- <-.
+      destruct (g_involved_inv s1 nd HS1 G) as (_ & _ & Hv).
+      destruct Hv as [[L _]|(l2 & r2 & E & Hinv)]; [right; congruence|exfalso; apply (leaf_not_parent _ nd l r Hc1 Ech1 L)|].
+      rewrite Ech1 in E. injection E as <- <-.
+      rewrite (F1 _ Hinv), (F2 _ (inv_ok_same _ _ Hrm l r _ Hinv)). reflexivity.
+  - intros l1 l2 E1 E2. pose proof (legs_ok_same _ _ Hrm nd l1 (A1 l1 E1)) as H1. pose proof (A2 l2 E2) as H2.
+    split; [apply (legs_ok_size_unique n (sliced s2) _ nd); assumption|].
+    unfold legs_ok in H1, H2. destruct (Nat.eqb (length nd) N).
+    + destruct H1 as [_ G1], H2 as [_ G2]. intros j. rewrite <- !lget_in_keys, G1, G2. tauto.
+    + destruct H1 as [W1 G1], H2 as [W2 G2]. apply wfl_keys_same; try assumption. intros j. rewrite G1, G2. reflexivity.
+Qed.
+
+(* ... and so are the tracked totals *)
+Theorem totals_determined s1 s2 : InvC s1 -> InvC s2 -> children s1 = children s2 ->
+  Permutation (sliced s1) (sliced s2) ->
+  (forall p, In p (nkeys (children s1)) -> nget p (info s1) <> None /\ nget p (info s2) <> None) ->
+  (trk_flops s1 = true -> trk_flops s2 = true -> flops_ s1 = flops_ s2) /\
+  (trk_write s1 = true -> trk_write s2 = true -> write_ s1 = write_ s2) /\
+  mult s1 = mult s2.
+Proof.
+  intros HI1 HI2 Ech HP Hpres.
+  assert (Hrm : forall j, In j (removed (sliced s1)) <-> In j (removed (sliced s2))).
+  { intros j. unfold removed. split; apply Permutation_in; [|apply Permutation_sym]; apply Permutation_map, HP. }
+  pose proof (figures_determined s1 s2 HI1 HI2 Ech Hrm) as HF.
+  destruct HI1 as [HS1 HT1], HI2 as [HS2 HT2].
+  assert (HT1' : tot_flops (nkeys (children s1)) s1 /\ tot_write (nkeys (children s1)) s1 /\ tot_size (nkeys (children s1)) s1) by (apply totals_split, HT1).
+  assert (HT2' : tot_flops (nkeys (children s1)) s2 /\ tot_write (nkeys (children s1)) s2 /\ tot_size (nkeys (children s1)) s2) by (rewrite Ech; apply totals_split, HT2).
+  destruct HT1' as (F1 & W1 & _), HT2' as (F2 & W2 & _).
+  split; [|split].
+  - intros T1 T2. destruct (F1 T1) as [Ea Pa], (F2 T2) as [Eb Pb]. rewrite Ea, Eb. f_equal. apply map_ext_in. intros p Hp.
+    destruct (Hpres p Hp) as [K1 K2]. destruct (nget p (info s1)) as [i1|] eqn:E1; [|congruence].
+    destruct (nget p (info s2)) as [i2|] eqn:E2; [|congruence].
+    specialize (Pa p Hp). specialize (Pb p Hp). unfold cflops, rd in *. rewrite E1 in *. rewrite E2 in *.
+    destruct (HF p i1 i2 E1 E2) as (_ & Hf & _).
+    destruct (i_flops i1) as [z1|]; [|congruence]. destruct (i_flops i2) as [z2|]; [|congruence].
+    apply (Hf z1 z2); reflexivity.
+  - intros T1 T2. destruct (W1 T1) as [Ea Pa], (W2 T2) as [Eb Pb]. rewrite Ea, Eb. f_equal. apply map_ext_in. intros p Hp.
+    destruct (Hpres p Hp) as [K1 K2]. destruct (nget p (info s1)) as [i1|] eqn:E1; [|congruence].
+    destruct (nget p (info s2)) as [i2|] eqn:E2; [|congruence].
+    specialize (Pa p Hp). specialize (Pb p Hp). unfold csize, rd in *. rewrite E1 in *. rewrite E2 in *.
+    destruct (HF p i1 i2 E1 E2) as (Hsz & _).
+    destruct (i_size i1) as [z1|]; [|congruence]. destruct (i_size i2) as [z2|]; [|congruence].
+    apply (Hsz z1 z2); reflexivity.
+  - destruct HS1 as (_&_&_&M1), HS2 as (_&_&_&M2). rewrite M1, M2. apply multiplicity_perm, HP.
+Qed.
+
 End Inv.
